@@ -325,6 +325,62 @@ STRUCT_READ_RE = re.compile(r"(?:crate :: \w+ :: )?(\w+) :: (?:tokio_|astd_)?rea
 UTIL_STRUCT_RE = re.compile(r"crate :: util :: (\w+)_read \( & mut r \) (?:\. await )?\?")
 
 
+def fixed_size(toks):
+    """static size in bytes of a type given as tokens, or None when it depends on the value"""
+    pos = [0]
+
+    def ty():
+        t = toks[pos[0]]
+        pos[0] += 1
+        if t == "int":
+            k = int(toks[pos[0]])
+            pos[0] += 2
+            return k
+        if t in ("bool", "lvl"):
+            k = int(toks[pos[0]])
+            pos[0] += 1
+            return k
+        if t == "enum":
+            k = int(toks[pos[0]])
+            n = int(toks[pos[0] + 2])
+            pos[0] += 3 + n
+            return k
+        if t == "datetime":
+            return 4
+        if t == "prim":
+            pos[0] += 1
+            return None
+        if t in ("cstring", "sizedcstring", "string", "packedguid"):
+            return None
+        if t == "arrf":
+            n = int(toks[pos[0]])
+            pos[0] += 1
+            e = ty()
+            return None if e is None else n * e
+        if t == "arrv":
+            pos[0] += 1
+            ty()
+            return None
+        if t == "struct":
+            total = 0
+            while toks[pos[0]] != "end":
+                if toks[pos[0]] != "f":
+                    # conditional / endless / optional member: variable
+                    depth = 0
+                    return None
+                role = toks[pos[0] + 2]
+                pos[0] += 4 if role == "c" else 3
+                e = ty()
+                total = None if (total is None or e is None) else total + e
+            pos[0] += 1
+            return total
+        raise Untranslated(f"fixed_size: token {t}")
+    try:
+        return ty()
+    except (IndexError, ValueError):
+        return None
+
+
 class Translator:
     def __init__(self, index=None):
         self.ix = index or Index()
@@ -379,7 +435,7 @@ class Translator:
         if body is None:
             raise Untranslated(f"{type_name}: no {'/'.join(fn_names)} function")
         stmts = P(lex(body)).block()
-        st = {"ctx": ctx, "ftypes": self.field_types(src), "scruts": [], "lens": {}, "fixed": {}, "types": {}, "flagty": {}}
+        st = {"ctx": ctx, "ftypes": self.field_types(src), "scruts": [], "lens": {}, "fixed": {}, "types": {}, "flagty": {}, "top": None}
         return self.ops_to_tokens(self.block(stmts, st))
 
     # ---- ops:  ("f", name, typetoks) | ("fe", name, typetoks) | ("if", var, [(condtoks, ops)], elseops) | ("opt", ops)
@@ -418,6 +474,26 @@ class Translator:
             else:
                 raise Untranslated(f"loop outside an array context: {o[0]}")
         return out
+
+    def check_increment(self, et, incs):
+        """the until-the-end loop must advance `current_size` by exactly the bytes of the element it has just read"""
+        if len(incs) != 1:
+            raise Untranslated(f"endless loop advances current_size {len(incs)} times")
+        inc = incs[0]
+        fs = fixed_size([t for t in et if not t.startswith("@var:")] if not any(t.startswith("@var:") for t in et) else ["arrv", "0", "int", "1", "le"])
+        if re.fullmatch(r"\d+", inc):
+            if fs is None or fs != int(inc):
+                raise Untranslated(f"endless loop counts {inc} bytes per element, the element {' '.join(et[:6])}… takes {fs if fs is not None else 'a variable number of'} bytes")
+            return
+        if re.fullmatch(r"\w+ \. size \( \)", inc) and et[0] in ("struct", "prim"):
+            return
+        if re.fullmatch(r"crate :: util :: packed_guid_size \( & \w+ \)", inc) and et == ["packedguid"]:
+            return
+        if re.fullmatch(r"\w+ \. len \( \) \+ 1", inc) and et == ["cstring"]:
+            return
+        if re.fullmatch(r"\w+ \. len \( \) \+ 5", inc) and et == ["sizedcstring"]:
+            return
+        raise Untranslated(f"endless loop counts `{inc}` per element of type {' '.join(et[:6])}…")
 
     def elem_type(self, ops, what):
         if len(ops) != 1 or ops[0][0] != "f":
@@ -666,8 +742,66 @@ class Translator:
             return []           # a match that only builds the result value performs no wire operation
         return [("if", var, out, [])]
 
+    def check_initial_size(self, e, st):
+        """`let mut current_size = { … }` in front of an until-the-end loop: the bytes of everything read before the array.  Compared with the
+        members the reader has read so far (top level of the container); a conditional member before the array makes the static sum wrong"""
+        top = st.get("top")
+        if top is None or e[0] != "block" or len(e[1]) != 1 or e[1][0][0] != "expr" or e[1][0][1][0] != "flat":
+            return
+        toks = e[1][0][1][1]
+        terms, cur, depth = [], [], 0
+        for t in toks:
+            if t in OPEN:
+                depth += 1
+            elif t in CLOSE:
+                depth -= 1
+            if t == "+" and depth == 0:
+                terms.append(" ".join(cur))
+                cur = []
+            else:
+                cur.append(t)
+        terms.append(" ".join(cur))
+        got_const = sum(int(t) for t in terms if re.fullmatch(r"\d+", t))
+        got_sym = sorted(t for t in terms if not re.fullmatch(r"\d+", t))
+        want_const, want_sym = 0, []
+        for o in top:
+            if o[0] in ("if", "opt"):
+                raise Untranslated(f"current_size of the endless array is a static sum ({' + '.join(terms)[:80]}) although conditional members are read before the array")
+            if o[0] != "f":
+                return
+            name, tk = o[1], o[2]
+            if any(t.startswith("@var:") for t in tk):
+                return              # counted array before the endless one: not compared
+            fs = fixed_size(tk)
+            if fs is not None:
+                want_const += fs
+            elif tk == ["cstring"]:
+                want_const += 1
+                want_sym.append(f"{name} . len ( )")
+            elif tk == ["sizedcstring"]:
+                want_const += 5
+                want_sym.append(f"{name} . len ( )")
+            elif tk == ["packedguid"]:
+                want_sym.append(f"crate :: util :: packed_guid_size ( & {name} )")
+            elif tk[0] in ("struct", "prim"):
+                want_sym.append(f"{name} . size ( )")
+            else:
+                return
+        if got_const != want_const or got_sym != sorted(want_sym):
+            raise Untranslated(f"current_size of the endless array starts at {' + '.join(terms)[:120]} but the members read before it take {want_const}{''.join(' + ' + x for x in want_sym)} bytes")
+
     def block(self, stmts, st):
         ops = []
+        is_top = st.get("top") is None
+        if is_top:
+            st["top"] = ops
+        try:
+            return self.block_(stmts, st, ops)
+        finally:
+            if is_top:
+                st["top"] = None
+
+    def block_(self, stmts, st, ops):
         # pre-pass: the enum type of a matched variable is known from its arms
         for s in stmts:
             e = s[2] if s[0] == "let" else s[3] if s[0] == "assign" else s[1] if s[0] == "expr" else None
@@ -691,6 +825,7 @@ class Translator:
                     lhs, op, e = s[1], s[2], s[3]
                     ltxt = " ".join(lhs)
                     if ltxt == "current_size" and op == "+=":
+                        st.setdefault("incs", []).append(" ".join(e[1]) if e[0] == "flat" else "<block>")
                         continue
                     m = re.fullmatch(r"\*? ?(\w+)", ltxt)
                     if not m or op != "=":
@@ -699,6 +834,7 @@ class Translator:
                     if name == "i":
                         name = "_elem"
                 if name == "current_size":
+                    self.check_initial_size(e, st)
                     continue
                 if name.startswith("_") and name != "_elem":
                     name = name[1:]
@@ -734,8 +870,13 @@ class Translator:
                 ctext = " ".join(s[1])
                 if not re.fullmatch(r"current_size < \( body_size as usize \)", ctext):
                     raise Untranslated(f"while {ctext}")
+                saved_incs = st.get("incs", [])
+                st["incs"] = []
                 inner = self.block(s[2], st)
-                ops.append(("fe", "_arr", self.elem_type(inner, ctext)))
+                incs, st["incs"] = st["incs"], saved_incs
+                et = self.elem_type(inner, ctext)
+                self.check_increment(et, incs)
+                ops.append(("fe", "_arr", et))
             elif k == "return":
                 raise Untranslated(f"return outside a guard: {' '.join(s[1])}")
             elif k == "expr":
@@ -783,14 +924,16 @@ def message_files():
 MSG_TYPE_RE = re.compile(r"(?m)^impl (?:crate::Message|ClientMessage|ServerMessage|crate::private::Sealed) for (\w+)")
 
 
-def translate_all():
+def translate_all(tr=None, only=None):
     """-> list of dict(key-ish fields, tokens | untranslated)"""
-    tr = Translator()
+    tr = tr or Translator()
     out = []
     for ctx, path in message_files():
         src = tr.ix.src(path)
         m = re.search(r"(?m)^pub (?:struct|enum) (\w+)", src)
         name = m.group(1)
+        if only is not None and not only(name):
+            continue
         d = {"ctx": ctx, "rust_type": name, "file": os.path.relpath(path, REPO)}
         try:
             d["tokens"] = tr.container(ctx, path, name, ["read_inner", "read"]) + ["end"]
@@ -1242,7 +1385,7 @@ class WriterTranslator:
         """mask of option member `opt` of synthesised flag struct `ft`: an int, or {variant: mask} for an else-if group"""
         home = self.type_home(st["ctx"], ft, st["path"])
         src = self.ix.src(home)
-        m = re.search(r"pub fn set_" + re.escape(opt) + r"\(mut self, \w+: [\w:]+\) -> Self \{\s*self\.inner \|= (\w+)::(\w+);", src)
+        m = re.search(r"pub fn set_" + re.escape(opt) + r"\(mut self(?:, \w+: [\w:]+)?\) -> Self \{\s*self\.inner \|= (\w+)::(\w+);", src)
         if m:
             _, consts = self.flag_consts_raw(st["ctx"], m.group(1), home)
             return consts.get(m.group(2))
@@ -1347,12 +1490,14 @@ class WriterTranslator:
         return out
 
 
-def translate_all_writers(reader=None):
+def translate_all_writers(reader=None, only=None):
     tr = WriterTranslator(reader)
     out = []
     for ctx, path in message_files():
         src = tr.ix.src(path)
         name = re.search(r"(?m)^pub (?:struct|enum) (\w+)", src).group(1)
+        if only is not None and not only(name):
+            continue
         d = {"ctx": ctx, "rust_type": name, "file": os.path.relpath(path, REPO)}
         try:
             d["tokens"] = tr.ops_to_tokens(tr.container(ctx, path, name)) + ["end"]
